@@ -208,6 +208,10 @@ func (n *namer) genCmdBody(c *Cmd) {
 				a.T.W = WSlice
 				a.NamedSlice = a.T.K == KString && r.Chance(cfg.PNamedRest, 100)
 				a.UnmSlice = a.NamedSlice && r.Chance(1, 3)
+				if a.NamedSlice && !a.UnmSlice && r.Chance(1, 3) {
+					a.Embedded = true
+					a.Field = "StrList"
+				}
 				if r.Chance(cfg.PPosReq, 100) {
 					lo := r.Range(0, 3)
 					switch r.Intn(5) {
@@ -316,6 +320,10 @@ func (n *namer) genCmdBody(c *Cmd) {
 		if a := c.Pos.Args[len(c.Pos.Args)-1]; a.IsRest() {
 			a.T.W = WScalar
 			a.NamedSlice = false
+			if a.Embedded {
+				a.Embedded = false
+				a.Field = fmt.Sprintf("A%d", d.NewID())
+			}
 			a.PtrSlice = false
 			a.Req = ""
 		}
